@@ -407,7 +407,10 @@ Definition user_finish (st : ustate) : ustate * option exn :=
   | None => (st, Some AttributeError)
   | Some u =>
       match u_name u with
-      | [] => (st, None)
+      | [] => match u_id u with
+              | Some _ => (st, None)
+              | None => if gen.T16.FINISH_CLEARS_PRISTINE then (UState None (us_db st) (us_next st), None) else (st, None)
+              end
       | _ =>
           match set_user st u with
           | (st1, None) => (UState None (us_db st1) (us_next st1), None)
@@ -479,7 +482,13 @@ Definition user_exec (cmd rest : str) (st : ustate) : ustate * option exn :=
                   end
       end
   | None =>
-      if existsb (seq_eqb cmd) gen.T16.USER_ATTRS then (st, Some TypeError)   (* not callable / wrong arity *)
+      if gen.T16.READER_HAS_NEXTID && seq_eqb cmd gen.T16.K_nextid then
+        (* IrcUserCreator.nextid: self.users.nextId = max(self.users.nextId, int(rest)) *)
+        match parse_int rest with
+        | Ok z => (UState (us_u st) (us_db st) (Z.max (us_next st) z), None)
+        | Raise e => (st, Some e)
+        end
+      else if existsb (seq_eqb cmd) gen.T16.USER_ATTRS then (st, Some TypeError)   (* not callable / wrong arity *)
       else (st, Some ValueError)                                             (* Creator.badCommand *)
   end.
 
@@ -1002,6 +1011,13 @@ Definition reread_ign (locale : fenc) (text : str) : res str :=
 Definition gEnc (v : value) : fenc := match gN v with 1 => ELatin1 | 2 => EAscii | _ => EUtf8 end.
 
 (* ------------------------------------------------------------------ *)
+(* nextId through save and load (added).  UsersDictionary.flush writes the accounts (write_users) and, since
+   the repair C16.k, a trailing `nextid N` line (table FLUSH_WRITES_NEXTID); the reader has the matching
+   command (READER_HAS_NEXTID, handled in user_exec). *)
+Definition write_users_state (next : Z) (db : list user) : str :=
+  write_users db ++ (if gen.T16.FLUSH_WRITES_NEXTID then wline [] gen.T16.K_nextid (dec_Z next) else []).
+
+(* ------------------------------------------------------------------ *)
 (* wire                                                                *)
 
 Definition vZ (z : Z) : value := I z.
@@ -1054,6 +1070,7 @@ Definition run (v : value) : value :=
           L [vUser (fst r); vExn (snd r)]
   | 16 => let r := remove_nick (gUser (nth_v 0 p)) (gS (nth_v 1 p)) (gS (nth_v 2 p)) in L [vUser (fst r); vExn (snd r)]
   | 17 => L [vR vS (reread (gEnc (nth_v 0 p)) (gS (nth_v 1 p))); vR vS (reread_ign (gEnc (nth_v 0 p)) (gS (nth_v 1 p)))]
+  | 18 => vS (write_users_state (gZ (nth_v 0 p)) (map gUser (gL (nth_v 1 p))))
   | 12 => vB (glob (gS (nth_v 0 p)) (gS (nth_v 1 p)))
   | 13 => vB (is_user_hostmask (gS p))
   | _ => L []
